@@ -70,7 +70,7 @@ def qualified(h):
     """Fully qualified harness name (`--exact`): a substring filter would also select e.g. `<h>_std`."""
     from . import registry
     m = registry.K[h]["module"] if h in registry.K else "dedupe"
-    return "%s::verif_%s::%s" % (m, m, h)
+    return "%s::verif_%s::%s" % (m.split("__")[0], m, h)
 
 
 def cargo_kani(root, harnesses, extra, timeout, jobs=None):
